@@ -8,6 +8,7 @@
  * Shape bound: at most NREG entries in the pre-state, names of at most 1 char.
  */
 #include "verif.h"
+#define VERIF_RG_POST_STEP   /* environment also acts after each of my atomic operations */
 #include "verif_rg.h"
 /* Guarantee hooks (no interference is injected: the contracts are call-atomic).  While a slot is "watched",
  * every change of its value must be the effect of my own atomic compare-and-swap on that very slot: the slot
